@@ -453,6 +453,61 @@ let run_case op t =
       let v = next_z t in
       let pr (vals, bits) = join (("ok" :: List.map str_of_z vals) @ List.map b2s bits) in
       (pr (fref_ptr_m v), pr (fref_ptr_spec v))
+  | "lang" ->
+      (* the language rules of Model.v part (iii) against the compiler: no specification leg *)
+      let rule = next_str t in
+      let x = next_int t in
+      let y = next_int t in
+      let wf_cat = function Some c -> join [ "ok"; sc c ] | None -> "ill" in
+      let k2s k = string_of_int (code_of_kind k) in
+      let m =
+        match rule with
+        | "binds" -> join [ "ok"; b2s (binds (kind_of_code x) (cat_of_code y)) ]
+        | "scast" -> wf_cat (static_cast_ref (kind_of_code x) (cat_of_code y))
+        | "member" -> wf_cat (Some (member_lv (x = 1) (kind_of_code y)))
+        | "autolref" -> wf_cat (ret_auto_lref (cat_of_code y))
+        | "autofwd" -> wf_cat (ret_auto_fwd (cat_of_code y))
+        | "dedfwd" ->
+            let c = cat_of_code y in
+            (match perfect_fwd c with
+             | Some f -> join [ "ok"; k2s (deduce_fwd c); sc (named c); sc f ]
+             | None -> "ill")
+        | "pmf" -> join [ "ok"; b2s (pmf_callable (pmfq_of x) (cat_of_code y)) ]
+        | "init" ->
+            (match init_elem (kind_of_code x) (cat_of_code y) with
+             | Some (Constructed false) -> "ok 1" | Some (Constructed true) -> "ok 2" | Some Aliased -> "ok alias" | None -> "ill")
+        | "collapse" ->
+            let k = kind_of_code y in
+            join [ "ok"; k2s (add_const k); k2s (add_lref k); k2s (add_rref k); k2s (remove_ref k) ]
+        | "ovl" ->
+            let c = cat_of_code y in
+            (match x with
+             | 0 -> join [ "ok"; (if picks_cref_over_template c then "0" else "1") ]
+             | 3 -> join [ "ok"; (if picks_rref_template c then "1" else "0") ]
+             | _ ->
+                 let xt = { cst = (x = 2); rf = RNone } in
+                 let p = if picks_rref_overload xt c then { cst = xt.cst; rf = RR } else { cst = xt.cst; rf = RL } in
+                 if binds p c then join [ "ok"; (if picks_rref_overload xt c then "1" else "0") ] else "ill")
+        | "move" ->
+            let c = cat_of_code y in
+            join ([ "ok"; sc (move_e c) ] @ [ (if y < 2 then sc (as_const_e c) else "-") ])
+        | _ -> "na" in
+      (m, "na")
+  | "ipfmem" ->
+      let x = next_z t in
+      let w i = nat_of_int i in
+      (* f, g constructed from a member pointer; fn, gn from a null member pointer; fa, ga assigned a null member pointer *)
+      let ops = [ OCtorTarget (w 0, zi 0); OCtorTarget (w 1, zi 1); OCtorNullFn (w 2); OCtorNullFn (w 3);
+                  OCtorTarget (w 4, zi 0); OAssignNullFn (w 4); OCtorTarget (w 5, zi 1); OAssignNullFn (w 5);
+                  OBool (w 0); OBool (w 1); OBool (w 2); OBool (w 3); OBool (w 4); OBool (w 5) ] in
+      let bools obs = List.filter_map (fun ((tk, _), _) -> match tk with TBool b -> Some (b2s b) | _ -> None) obs in
+      let pr (a, b) bs = join ([ "ok"; str_of_z a; str_of_z b ] @ bs) in
+      let model =
+        match run_m [] [] (w 6) init_state ops with
+        | Bad e -> "ub " ^ lerr_s e
+        | Good (_, obs) -> pr (memptr_target_m x) (bools obs) in
+      let _, sobs = run_s [] [] (w 6) init_astate ops in
+      (model, pr (memptr_target_spec x) (bools sobs))
   | "wctor" ->
       let fc = cat_of_code (next_int t) in
       let a1 = cat_of_code (next_int t) in
